@@ -614,7 +614,7 @@ func main() {
 	nested := []core.Value{I(1), Arr(I(2)), Arr(Arr(I(3))), Arr(I(1), Arr(I(2), Arr(I(4))))}
 	nums := []core.Value{I(-2), F(-1.5), F(0.5), I(3)}
 	objK := []string{"a", "b", "c"}
-	objV := []core.Value{I(1), Obj("a", I(1)), Obj()}
+	objV := []core.Value{I(1), Obj("a", I(1)), Obj(), values.None}
 	zipP := []core.Value{I(1), S("x"), Arr(I(1))}
 	tripleP := main[:3]
 	tripleN := 2
